@@ -4,33 +4,36 @@
 # which checks report a violation.  Writes /verif/seeded/MATRIX.json.  Evidence files written by
 # these runs describe the mutated copy: re-run the checks on /repo afterwards.
 export GOFLAGS=-mod=mod GOPROXY=off GOSUMDB=off GOTOOLCHAIN=local
-M=/var/tmp/lvc-matrix/repo
-B=/var/tmp/lvc-matrix/base
+TAG=${MATRIX_TAG:-matrix}
+OUT=${MATRIX_OUT:-/verif/seeded/MATRIX.json}
+FILTER=${MATRIX_FILTER:-.}
+M=/var/tmp/lvc-$TAG/repo
+B=/var/tmp/lvc-$TAG/base
 mkdir -p $M $B
 # snapshot of /repo and of the checker, so that work going on in /repo or /verif meanwhile does not
 # leak into the matrix
 rsync -a --delete --exclude .git /repo/ $B/
-cp /verif/bin/lvc /var/tmp/lvc-matrix/lvc
+cp /verif/bin/lvc /var/tmp/lvc-$TAG/lvc
 IDS=$(python3 -c "import json;print(' '.join(c['property_id'] for c in json.load(open('/verif/MANIFEST.json'))['checks']))")
-echo "{" > /verif/seeded/MATRIX.json.tmp
+echo "{" > $OUT.tmp
 first=1
-for d in $(ls /verif/seeded | grep -v MATRIX); do
+for d in $(ls /verif/seeded | grep -v MATRIX | grep -E -e "$FILTER"); do
   [ -f /verif/seeded/$d/patch.diff ] || continue
   rsync -a --delete $B/ $M/
   (cd $M && patch -p1 -s < /verif/seeded/$d/patch.diff) || { echo "patch failed for $d" >&2; continue; }
   caught=""
   for id in $IDS; do
-    out=$(cd /verif && timeout 600 /var/tmp/lvc-matrix/lvc check $id --repo $M 2>&1)
+    out=$(cd /verif && timeout 600 /var/tmp/lvc-$TAG/lvc check $id --repo $M 2>&1)
     if [ $? -ne 0 ]; then
       ob=$(echo "$out" | grep -m1 "^VIOLATION" | sed 's/.*obligation=\([^ ]*\).*/\1/')
       caught="$caught\"$id: $ob\","
     fi
   done
-  [ $first = 1 ] || echo "," >> /verif/seeded/MATRIX.json.tmp
+  [ $first = 1 ] || echo "," >> $OUT.tmp
   first=0
-  printf ' "%s": [%s]' "$d" "${caught%,}" >> /verif/seeded/MATRIX.json.tmp
+  printf ' "%s": [%s]' "$d" "${caught%,}" >> $OUT.tmp
   echo "$d -> ${caught:-missed}"
 done
-echo "" >> /verif/seeded/MATRIX.json.tmp; echo "}" >> /verif/seeded/MATRIX.json.tmp
-mv /verif/seeded/MATRIX.json.tmp /verif/seeded/MATRIX.json
-rm -rf /var/tmp/lvc-matrix
+echo "" >> $OUT.tmp; echo "}" >> $OUT.tmp
+mv $OUT.tmp $OUT
+rm -rf /var/tmp/lvc-$TAG
